@@ -35,15 +35,21 @@ def value_obs(prefix, outputs, kinds, numeric_data, nsk=6, timeout=120, info=Non
             return teq(fa(idx), fb(idx), sk)
 
         def replay(ob, args, shape=shape, mk_a=mk_a, mk_b=mk_b, name=name):
-            nalg = NumAlg(numeric_data)
-            na, nb = mk_a(nalg), mk_b(nalg)
-            for idx in itertools.product(*[range(n) for n in shape]):
-                try:
-                    va, vb = na(idx), nb(idx)
-                except Exception as e:  # noqa: BLE001
-                    return True, {"output": name, "index": list(idx), "exception": f"{type(e).__name__}: {e}"}
-                if not num_close(va, vb):
-                    return True, {"output": name, "index": list(idx), "a": repr(va), "b": repr(vb)}
+            # trial 1: pairwise distinct finite data; trials 2..: NaN / inf injected into float inputs (the property
+            # covers NaN/inf inputs; a term mismatch may only show there)
+            for trial, data in enumerate(special_value_trials(numeric_data)):
+                nalg = NumAlg(data)
+                na, nb = mk_a(nalg), mk_b(nalg)
+                for idx in itertools.product(*[range(n) for n in shape]):
+                    try:
+                        va, vb = na(idx), nb(idx)
+                    except Exception as e:  # noqa: BLE001
+                        if trial:
+                            continue
+                        return True, {"output": name, "index": list(idx), "exception": f"{type(e).__name__}: {e}"}
+                    if not num_close(va, vb):
+                        return True, {"output": name, "index": list(idx), "a": repr(va), "b": repr(vb),
+                                      "inputs": "finite, pairwise distinct" if trial == 0 else f"NaN/inf injected (trial {trial})"}
             return False, {"why": "term mismatch but numerically equal at every index (abstraction artefact)"}
 
         size = int(np.prod(shape)) if nd else 1
@@ -53,6 +59,23 @@ def value_obs(prefix, outputs, kinds, numeric_data, nsk=6, timeout=120, info=Non
         obs.append(FnOb(f"{prefix}/{name}", params, body, pre, [smp], timeout=timeout, replay=replay,
                         info={"output": name, "shape": list(shape), **(info or {})}))
     return obs
+
+
+def special_value_trials(data):
+    """numeric input sets for replay: the given data, then copies whose float arrays have NaN (and inf) cells at
+    deterministic positions (different positions per input, so that 'NaN in exactly one operand' occurs)"""
+    yield data
+    names = sorted(k for k, v in data.items() if isinstance(v, np.ndarray) and v.dtype.kind in "fc" and v.size)
+    for trial in (1, 2):
+        d2 = dict(data)
+        for j, k in enumerate(names):
+            a = np.array(data[k], copy=True)
+            flat = a.reshape(-1)
+            flat[(j + trial) % flat.size] = np.nan
+            if flat.size > 2:
+                flat[(2 * j + trial + 1) % flat.size] = np.inf if trial == 1 else -np.inf
+            d2[k] = a
+        yield d2
 
 
 # ---------------------------------------------------------------------------
